@@ -397,10 +397,10 @@ def run_shard(name, seed, tier, **kw):
     @hyp_settings(kw["n"])
     @given(st.data())
     def prop(data):
-        key = data.draw(st.sampled_from(keys))
+        key = keys[data.draw(st.integers(0, len(keys) - 1))]
         sig, _ = signature_of(classes, *key)
         all_shapes = list(itertools.islice(shapes_for(sig, SPECS[key]["values"]), 4000))
-        posnames, kwnames = data.draw(st.sampled_from(all_shapes))
+        posnames, kwnames = all_shapes[data.draw(st.integers(0, len(all_shapes) - 1))]
         numeric = [n for n in posnames + kwnames if isinstance(SPECS[key]["values"].get(n), (int, float)) and not isinstance(SPECS[key]["values"].get(n), bool)]
         varmode = {n: data.draw(st.booleans()) for n in numeric}
         if key in (("LCD", None), ("Led", "flash_pattern"), ("LCD", "glyph")):
